@@ -112,6 +112,11 @@ def isInvalidType (t : TyId) : Bool := (env.ty (env.derefPtr t)).isInvalid
 
 /-- `util.IterateFields`: fields of the struct under `DerefPtr(t)` -/
 def fieldsOf (t : TyId) : List Field := (env.ty (env.derefPtr t)).fields
+/-- Go's rule that the field names of one struct are distinct, as a check on the type table
+(assumption of the covering theorem; the driver evaluates it on every input) -/
+def distinctFieldsCheck : Bool :=
+  env.tys.toList.all fun ti => decide ((ti.fields.map (·.name)).Nodup)
+
 /-- `util.IterateMethods`: explicit methods of the named type under `DerefPtr(t)` -/
 def methodsOf (t : TyId) : List MethodInfo :=
   let d := env.derefPtr t
